@@ -158,6 +158,8 @@ SEEDS = {
     "C07h-last-impedance-sample-left-out": ("C07", "an impedance table that ends below the Nyquist sample with a non-negligible last entry (short user table, tabulated resonator): the wake loop uses the index of the last non-zero sample as a count and leaves that sample out, the spectrum still counts it", ["C06", "C18"]),
     "C10h-mean-by-nominal-population": ("C10", "a record at which the population has drifted from nominal AND the centroid is away from zero (wide start + RF modulation / strong wake): the first moments are divided by the nominal share", ["C09", "C04"]),
     "C08h-clamp-limits-read-from-bunch0": ("C08", "--InterpolateClamped true with cubic interpolation and two or more bunches with different data: a new CPU implementation of the clamp reads the two limiting cells of the x-kick (drift) without the bunch offset, every bunch is clamped against bunch 0's cells", ["C01", "C03"]),
+    "C04h-axis-accessor-index-8bit": ("C04", "a grid of more than 256 cells with the Fokker-Planck term on: PhaseSpace::q()/p() take their index as uint_fast8_t (the type of the axis-number arguments next to them), rows j >= 256 get the energy of row j-256 in the damping term", ["C01", "C09"]),
+    "C05h-linear-rf-angle-times-cos-phis": ("C05", "a ring with a large synchronous phase (radiation loss a sizeable fraction of the RF voltage, e.g. -E 2.2e9 -V 0.8e6) and the linear RF model: main() builds the RF kick with angle*cos(phi_s), drift and time step keep angle", ["C03"]),
     "C10-": ("C10", "", []),
     "C17-": ("C17", "", []),
 }
